@@ -293,6 +293,14 @@ func (gb *gcpBalancer) UpdateClientConnState(ccs balancer.ClientConnState) error
 		gb.initializeConfig(cfg)
 	}
 
+	for sc := range gb.refreshingScRefs {
+		// Replacement connections of refreshes in flight must not take over
+		// with an outdated address list (also when the pool itself is empty
+		// because the old connection has shut down meanwhile).
+		sc.UpdateAddresses(addrs)
+		sc.Connect()
+	}
+
 	if len(gb.scRefs) == 0 {
 		gb.addSubConn()
 		return nil
@@ -302,12 +310,6 @@ func (gb *gcpBalancer) UpdateClientConnState(ccs balancer.ClientConnState) error
 		// TODO(weiranf): update streams count when new addrs resolved?
 		scRef.subConn.UpdateAddresses(addrs)
 		scRef.subConn.Connect()
-	}
-	for sc := range gb.refreshingScRefs {
-		// Replacement connections of refreshes in flight must not take over
-		// with an outdated address list.
-		sc.UpdateAddresses(addrs)
-		sc.Connect()
 	}
 
 	return nil
